@@ -55,7 +55,7 @@ REQUIRED = ["union_volume_checked", "level1_checked", "level2_checked", "levels_
             "frontend_checked", "named_levels_checked", "same_skeleton_other_radii",
             "zero_radius_tips", "far_exact_layouts", "other_length_units",
             "levels_as_numpy_integers", "failed_calls_before_measuring"]
-FLOOR = {"quick": 500, "thorough": 10000}
+FLOOR = {"quick": 500, "thorough": 20000}
 SHARDS = {"quick": 8, "thorough": 16}
 TIMEOUT = {"quick": 400, "thorough": 3000}
 RTOL = 2e-4
@@ -410,7 +410,7 @@ def run(ctx):
     tap = probes.CallTap({"mc": vo.VolMCObject._get_volume})
     sampled_budget = 3 if ctx.quick else 12
     with tap:
-        for k in range(ctx.scale(900, 18000)):
+        for k in range(ctx.scale(900, 36000)):
             if k % 3 == 2:
                 rc = G.random_recipe(rng, max_n=G.size_ladder(ctx, k, 8, 40, 200), extras=0)
                 case = {"kind": "sums", "tree": rc, "frontend": bool(rng.random() < 0.2)}
